@@ -75,18 +75,11 @@ pub fn extract_field_content(input: &str, tag: &str) -> Option<(String, usize)> 
 
 /// Find the boundary of the next field
 fn find_next_field_boundary(input: &str) -> Option<usize> {
-    let mut chars = input.char_indices();
-
-    while let Some((i, ch)) = chars.next() {
-        if ch == '\n' {
-            // Check if next character starts a field
-            if let Some((_, ':')) = chars.next() {
-                // This might be a field marker, verify the pattern
-                let rest = &input[i + 1..];
-                if is_field_marker(rest) {
-                    return Some(i);
-                }
-            }
+    for (i, ch) in input.char_indices() {
+        // A field marker starts right after a newline; look at the text that follows without
+        // consuming it, so that an empty line in front of a marker does not hide the marker
+        if ch == '\n' && is_field_marker(&input[i + 1..]) {
+            return Some(i);
         }
     }
 
